@@ -48,6 +48,19 @@ def run(cx, tier='quick'):
     return rep
 
 
+def _continue_in_nonlist_arm(ev):
+    """`match &attribute.meta { Meta::List(list) => list, _ => continue }`: the `continue` sits in the catch-all arm of a match whose
+    only other arm is `Meta::List(..)`"""
+    for c in reversed(ev.ctx):
+        if c['k'] == 'arm':
+            node = c.get('match') or {}
+            pats = [pat_s(a['pat']) for a in (node.get('arms') or [])]
+            if pat_s(c['pat']) == '_' and len(pats) == 2 and any(p.startswith('Meta::List(') for p in pats):
+                return True
+            return False
+    return False
+
+
 def check_scanners(cx, facts, rep):
     scs = scanners(cx)
     if len(scs) < 20:
@@ -73,6 +86,41 @@ def check_scanners(cx, facts, rep):
             rep.bad('SCAN', where, 'early-exit', 'the scan can stop early (`break`/manual loop): later attributes or metas are not examined', f.file, ev.line)
             bad_iter = True
         for ev in sc.continues:
+            # guard clauses of the attribute loop (`if !path.is_ident("educe") { continue }`, `let list = match &attribute.meta
+            # { Meta::List(l) => l, _ => continue }`) are the nested form written flat; any other `continue` skips part of the scan
+            loops_ = [c for c in ev.ctx if c['k'] in ('for', 'while', 'loop')]
+            at_ = [a for a in facts.atoms(ev.ctx, sc.fw) if a[0] not in ('loop',)]
+            in_attr_loop = bool(loops_) and loops_[-1].get('id') == sc.attr_loop[0].entry['id']
+
+            def _kind(a):
+                txt = a[1].replace(' ', '') if a[0] == 'cond' else ''
+                while txt.startswith('(') and txt.endswith(')') and txt.count('(') == txt.count(')') and txt[1:-1].count('(') >= 1 and not txt[1:-1].startswith(')'):
+                    inner_ = txt[1:-1]
+                    depth_, okp_ = 0, True
+                    for ch_ in inner_:
+                        depth_ += ch_ == '('
+                        depth_ -= ch_ == ')'
+                        if depth_ < 0:
+                            okp_ = False
+                            break
+                    if not okp_:
+                        break
+                    txt = inner_
+                if a[0] == 'cond' and txt in ('path.is_ident("educe")', 'attribute.path().is_ident("educe")'):
+                    return 'neg' if a[2] is False else 'pos'
+                if a[0] == 'cond' and txt in ('!path.is_ident("educe")', '!attribute.path().is_ident("educe")'):
+                    return 'neg' if a[2] is True else 'pos'
+                if a[0] == 'is' and a[2] == 'Meta::List':
+                    return 'neg' if a[3] is False else 'pos'
+                if a[0] == 'arm-else' and len(a[2]) == 1 and a[2][0].startswith('Meta::List(') and isinstance(a[1], tuple) and a[1][0] == 'field' and a[1][2] == 'meta':
+                    return 'neg'
+                if a[0] == 'survive' and len(a[2]) == 1 and a[2][0].startswith('Meta::List('):
+                    return 'pos'
+                return None
+            kinds_ = [_kind(a) for a in at_]
+            ok_c = in_attr_loop and all(k_ is not None for k_ in kinds_) and 'neg' in kinds_
+            if ok_c:
+                continue
             rep.bad('SCAN', where, 'continue', 'a `continue` skips part of the scan', f.file, ev.line)
             bad_iter = True
         if not bad_iter:
@@ -82,8 +130,11 @@ def check_scanners(cx, facts, rep):
         atoms = facts.atoms(mctx, sc.fw)
         conds = [a for a in atoms if a[0] not in ('loop',)]
         okguard = (len([a for a in atoms if a[0] == 'loop']) == 1 and len(conds) == 2
-                   and any(a[0] == 'cond' and 'is_ident("educe")' in a[1] and a[2] for a in conds)
-                   and any(a[0] == 'is' and a[2] == 'Meta::List' and a[3] for a in conds))
+                   and any(a[0] == 'cond' and ('is_ident("educe")' in a[1] and a[2] and not a[1].replace(' ', '').strip('(').startswith('!')
+                                               or a[1].replace(' ', '').strip('(').startswith('!') and 'is_ident("educe")' in a[1] and a[2] is False) for a in conds)
+                   and any((a[0] == 'is' and a[2] == 'Meta::List' and a[3])
+                           or (a[0] == 'survive' and len(a[2]) == 1 and a[2][0].startswith('Meta::List(') and isinstance(a[1], tuple) and a[1][0] == 'field' and a[1][2] == 'meta')
+                           for a in conds))
         if okguard:
             rep.ok('SCAN', where + '|educe-list-only')
         else:
